@@ -196,13 +196,27 @@ pub const COMMENT_TEXTS: [&str; 30] = [
     "100% /path //",
 ];
 
+/// a comment text made of operator characters only, longer than any per-line limit on operators
+const OPERATOR_RICH: &str = "+-+-+-+-+-+-+-+-+-+-+-+-+-+-+-+-+-+-+-+-+-+-+-+-+-+-+-+-+-+-+-+-+-+-+-+-+-+-+-+-+-+-+-+-+-+-+-+-+-+-+-+-+-+-+-+-+-+-+-+-+-+-+-+-+-+-+-+-+-+-+-+-+-+-+-+-+-+-+-+-+-+-+-+-+-+-+-+-+-+-+-+-+-+-+-+-+-+-+-+-+-+-+-+-+-+-+-+-+-+-+-+-+-+-+-+-+-+-+-+-+-+-+-+-+-+-+-+-+-+-+-+-+-+-+-+-+-+-+-+-+-+-+-+-+-+-+-+-+-+-+-+-+-+-+-+-+-+-+-+-+-+-+-+-+-+-+-+-+-+-+-+-+-+-+-+-+-+-+-+-+-+-+-+-+-+-+-+-+-+-+-+-+-+-+-+-+-+-+-+-+-+-+-+-+-+-+-+-+-+-+-+-+-+-+-+-+-+-+-+-+-+-+-+-+-+-+-+-+-+-+-+-+-+-+-+-+-+-+-+-+-+-+-+-+-+-+-+-+-+-+-+-+-+-+-+-+-+-+-+-+-+-+-+-+-+-+-+-+-+-+-+-+-+-+-+-+-+-+-+-+-+-+-+-+-+-+-+-+-+-+-+-+-+-+-+-+-+-+-+-+-+-+-+-+ (((((( << >> && || == != ~~!!";
+
 fn comment(st: &mut Style) -> String {
     let Some(r) = st.r() else { return String::new() };
-    let t = *r.pick(&COMMENT_TEXTS);
+    let t = if r.chance(1, 12) { OPERATOR_RICH } else { *r.pick(&COMMENT_TEXTS) };
     match r.below(3) {
         0 => format!("; {}", t),
         1 => format!("// {}", t),
-        _ => format!("/* {} */", t.replace("*/", "* /").replace("/*", "/ *")),
+        _ => {
+            // a block comment may be followed by blanks and by further comments
+            let tail = match r.below(6) {
+                0 => " ".to_string(),
+                1 => "\t \t".to_string(),
+                2 => " /* second */".to_string(),
+                3 => " ; and a third".to_string(),
+                4 => "/**/ // done".to_string(),
+                _ => String::new(),
+            };
+            format!("/* {} */{}", t.replace("*/", "* /").replace("/*", "/ *"), tail)
+        }
     }
 }
 
@@ -500,10 +514,11 @@ impl Names {
     pub fn new() -> Names {
         Names { n: 0 }
     }
-    /// fresh identifier that cannot collide with registers, X/Y/Z, pc, mnemonics or function names
+    /// fresh identifier that is not a register, X/Y/Z, pc, a mnemonic or a function name (but may begin like one)
     pub fn fresh(&mut self, kind: &str, rng: &mut Rng) -> String {
         self.n += 1;
-        const HEADS: [&str; 10] = ["a", "b", "c", "d", "g", "k", "m", "q", "t", "_"];
+        // (a third of the names begin like a register, a pointer register, `pc` or a function)
+        const HEADS: [&str; 20] = ["a", "b", "c", "d", "g", "k", "m", "q", "t", "_", "a", "b", "c", "r1", "R31", "x", "Y", "zero", "pc", "low"];
         let head = rng.pick(&HEADS);
         let tail: String = (0..rng.below(4)).map(|_| *rng.pick(&['a', 'e', 'k', '_', '3', 'Z', 'x', '9'])).collect();
         format!("{}{}_{}{}", head, kind, tail, self.n)
